@@ -14,7 +14,8 @@ Example tie_C09_cumulant_function :
   /\ einsum_basis_Basis_four_element_traces = ["iab,jbc,kcd,lda->ijkl"; "iab,jbc,kcd,lda->ijkl"]
   /\ Src.h_basis_Basis_four_element_traces = Expected.h_basis_Basis_four_element_traces
   /\ Src.h_basis_Basis_four_element_traces__2 = Expected.h_basis_Basis_four_element_traces__2
-  /\ Src.h_basis_Basis_sparse = Expected.h_basis_Basis_sparse.
+  /\ Src.h_basis_Basis_sparse = Expected.h_basis_Basis_sparse
+  /\ Src.h_basis_Basis___array_finalize__ = Expected.h_basis_Basis___array_finalize__.
 Proof. repeat split; reflexivity. Qed.
 
 Example tie_C09_error_transfer_matrix :
